@@ -1,7 +1,7 @@
 (* Props/C14.v — C14: a truncated packet is reported as an error, never as a shorter valid one.
    Theorems only. *)
 From NF Require Import Base Nom Types Layout Value V9 Ipfix Parser.
-From NF Require Import LayoutFacts C03Proofs C03Inst C14Proofs RunFacts.
+From NF Require Import LayoutFacts C03Proofs C03Inst C14Proofs RunFacts CutFacts VarFacts.
 Open Scope list_scope.
 
 (* V5 / V7: fewer bytes than 24 + 48*count (52*count): one Error whose remaining is the buffer,
@@ -37,6 +37,16 @@ Theorem C14_v9_flowset : forall puf s i,
   exists e, parse_flowset puf s i = (Err e, s) /\ e <> EFuel.
 Proof. exact v9_flowset_short. Qed.
 Print Assumptions C14_v9_flowset.
+
+(* V9, whole packet: a packet that parse_bytes accepts (ending its buffer), cut strictly inside
+   at any point that is not a flowset boundary (20, 20 + first flowset, ...): one Error whose
+   remaining is the truncated packet *)
+Theorem C14_v9_packet : forall puf allow s x p s' c,
+  parse_one puf allow s x = StOk (PV9 p) [] s' ->
+  (0 < c < length x)%nat -> ~ In c (boundaries (v9_sets p) 20) ->
+  exists err s'', parse_one puf allow s (firstn c x) = StErr (PErr err (firstn c x)) s''.
+Proof. exact v9_step_cut. Qed.
+Print Assumptions C14_v9_packet.
 
 (* packets before the truncated one are reported unchanged: the error element of the tail is
    appended to their results (instance of C11's concatenation theorem) *)
